@@ -169,4 +169,15 @@ CHECKS = {
        'jpeg output; each response is compared pixel-wise with the full unoptimised bottom-to-top composition computed from the individual layer images.',
   note='Tolerance 2 levels per layer; pixels within 1.1 px of a coverage edge are not judged; JPEG is judged only in smooth regions. Direct WMS sources only (no caches, tile sources, band merging, '
        'reprojection). One open known finding (colour key applied after a combined request) is excluded by construction and demonstrated by a regression case.'),
+ 'C16': dict(
+  category='exploration',
+  design_ref='DESIGN.md section 17',
+  technique='property-based (Hypothesis) configuration generation + systematic boundary-value lattice per service; reference TMS/WMTS client for the advertised matrix; synthetic upstream call log; audit-hook file-system observer; before/after directory and sqlite snapshot diffs',
+  text='Generated configurations (grid x cache backends x sources x dimensions x service options) x a boundary lattice of tile, feature-info and map requests ({-1, 0, last, last+1, 2^31, 10^18} per '
+       'axis, levels {-1, 0, last, last+1, 99, non-numeric}, off-list formats and dimension values, GetMap sizes around max_output_pixels and max_tile_limit) are sent through a hand-built WSGI '
+       'call. Every request that the served capabilities documents, the offered formats/dimensions or the configured limits make invalid must be answered with an error, with an empty upstream '
+       'log, no audit-hook write event and an unchanged cache directory / sqlite row snapshot; the last valid address and at/below-limit maps must be served; every upstream tile URL and '
+       'stored path/row must decode into the grid.',
+  note='~35k requests / 240 configurations quick, ~3.1M / 20000 thorough. T == max_tile_limit is judged only for side effects (documentation and code disagree on whether exactly the limit is allowed). '
+       'CPU/memory cost of a refused request is not measured; WMS-C tiled=true and reprojected GetMaps are not probed.'),
 }
